@@ -144,7 +144,9 @@ def main_body(res, tier, seed):
             # and a corpus of valid schemas that use what the generator does not produce (chained USE with AS, every
             # REPEAT control, recursion through a SELECT, nested functions, ALIAS / QUERY, redeclared attributes ...)
             for pth in sorted(glob.glob(os.path.join(VERIF, "corpus", "C04", "valid", "*.exp"))):
-                cases.append(("valid", "corpus/C04/valid/" + os.path.basename(pth), open(pth).read(), {}))
+                tv_ = open(pth).read()
+                mkv_ = re.search(r"^-- known: (\S+)$", tv_, re.M)      # an open finding: the unchanged tools reject this valid schema
+                cases.append(("valid", "corpus/C04/valid/" + os.path.basename(pth), tv_, {"known": mkv_.group(1)} if mkv_ else {}))
             # schemas on which only the agreement of message and status is judged
             for pth in sorted(glob.glob(os.path.join(VERIF, "corpus", "C04", "other", "*.exp"))):
                 cases.append(("either", "corpus/C04/other/" + os.path.basename(pth), open(pth).read(), {}))
@@ -195,7 +197,7 @@ def main_body(res, tier, seed):
                 pass
             if what is None and len(set(v[1] != 0 for v in verdicts)) != 1:
                 what = "the tools disagree: %s (%s)" % ([(v[0], v[1]) for v in verdicts], desc)
-            if what and expect.get("known") and ("accepts a schema" in what or "the tools disagree" in what):
+            if what and expect.get("known") and ("accepts a schema" in what or "the tools disagree" in what or "rejects a valid schema" in what):
                 sig_c04 = expect["known"]
             if what:
                 oracle_fail += 1
